@@ -2,5 +2,5 @@
 EXTENDS JsonVal
 IJ == {"m7", "0", "7", "i31", "i63", "i64"}
 FJ == {"1.5", "-2.25", "0.0"}
-SJ == {"ab", "q\"t", "b\\s", "{z}", "e'f", "sl/", "uni\\u00e9"}
+SJ == {"ab", "q\"t", "b\\s", "{z}", "e'f", "sl/", "uni\\u00e9", "endq\"", "U+1F600"}
 ====
